@@ -93,7 +93,9 @@ class Obj:
 
 
 class RCells:
-    def __init__(self, name, params, expr, cached=True, allow_none=None, form="lambda", doc=None):
+    def __init__(self, name, params, expr, cached=True, allow_none=None, form="lambda", doc=None, tick=True):
+        self.tick = tick
+        self.tickname = name        # the name written into the tick call (survives renames)
         self.name = name
         self.params = [list(p) for p in params]
         self.expr = expr
@@ -103,14 +105,17 @@ class RCells:
         self.doc = doc
 
     def copy(self):
-        return RCells(self.name, self.params, self.expr, self.cached, self.allow_none, self.form, self.doc)
+        c = RCells(self.name, self.params, self.expr, self.cached, self.allow_none, self.form, self.doc, self.tick)
+        c.tickname = self.tickname
+        return c
 
     def signature(self):
         return make_sig(self.params)
 
     def as_dict(self):
         return {"name": self.name, "params": self.params, "expr": self.expr, "cached": self.cached,
-                "allow_none": self.allow_none, "form": self.form, "doc": self.doc}
+                "allow_none": self.allow_none, "form": self.form, "doc": self.doc, "tick": self.tick,
+                "tickname": self.tickname}
 
 
 def make_sig(params):
